@@ -62,6 +62,9 @@ def leaf_text(i, kind):
         return 'cK.v:yes'
     if kind == 'chi':
         return 'ck.v:yes'
+    if kind == 'sq':
+        # a role name that carries ONE stray quote character
+        return "role:o'r%d" % i
     if kind == 'dq':
         # a double-quoted literal that contains the other quote character
         return '"ye\'s":%%(d%d)s' % i
@@ -77,6 +80,9 @@ def realise(kinds, mask):
         if k in ('role', 'rule'):
             if v:
                 creds['roles'].append('r%d' % i)
+        elif k == 'sq':
+            if v:
+                creds['roles'].append("o'r%d" % i)
         elif k == 'path':
             creds['%s%d' % (PATH_PREFIX[i % 4], i)] = {'v': 'yes' if v
                                                        else 'no'}
@@ -220,6 +226,7 @@ def run_T(cx, job):
             labelings.append(tuple(KINDS[(i + off) % len(KINDS)]
                                    for i in range(k)))
         if k >= 2:
+            labelings.append(('sq',) * k)
             labelings.append(('clo', 'chi') + ('role',) * (k - 2))
             labelings.append(('role',) * (k - 2) + ('chi', 'clo'))
         if k <= 3:
@@ -232,7 +239,7 @@ def run_T(cx, job):
             idx += 1
             if idx % job['of'] != job['shard']:
                 continue
-            kinds = tuple(x if x in KINDS + ('clo', 'chi') else 'role'
+            kinds = tuple(x if x in KINDS + ('clo', 'chi', 'sq') else 'role'
                           for x in lab)
             leafs = [x if x in '@!' else leaf_text(i, x)
                      for i, x in enumerate(lab)]
@@ -268,8 +275,8 @@ def run_LC(cx, job):
     """List-of-lists rules over leaves that differ only in letter case (the
     list form hands each leaf to the parser on its own; the printed text
     holds them side by side)."""
-    labels = [('clo', 0), ('chi', 1), ('role', 2), ('@', 0)]
-    kinds = ('clo', 'chi', 'role')
+    labels = [('clo', 0), ('chi', 1), ('sq', 2), ('sq', 3)]
+    kinds = ('clo', 'chi', 'sq', 'sq')
 
     def txt(l):
         return l[0] if l[0] in '@!' else leaf_text(l[1], l[0])
